@@ -159,9 +159,10 @@ Result(r) ==
        \* interrupted it -- EINTR = 4 -- it can, by reading again)
        \cup V(~r.ok /\ ~Invalid /\ ~cfg.nul /\ ~StatusUnreadable => ~didExec, "C07_err_only_if_not_started")
        \cup V(cfg.has_fault /\ ~Invalid /\ ~cfg.nul /\ ~r.ok /\ r.errkind = "io" => r.errno = cfg.fault_errno, "C07_errno_of_failing_step")
-       \cup V(cfg.has_fault /\ ~Invalid /\ ~cfg.nul /\ cfg.fault_kind # "close" /\ ~StatusReadInterrupted => ~r.ok, "C07_failure_reported")
+       \* (a fault planned for a call the attempt never got to make -- the n-th fcntl of a launch that needs fewer -- is no fault)
+       \cup V(cfg.has_fault /\ r.fault_fired /\ ~Invalid /\ ~cfg.nul /\ cfg.fault_kind # "close" /\ ~StatusReadInterrupted => ~r.ok, "C07_failure_reported")
        \* C18: when the child's signal state cannot be reset the program must not be started with the inherited one
-       \cup V(cfg.has_fault /\ cfg.fault_kind = "signal" => ~r.ok /\ ~didExec, "C18_no_program_without_clean_signal_state")
+       \cup V(cfg.has_fault /\ r.fault_fired /\ cfg.fault_kind = "signal" => ~r.ok /\ ~didExec, "C18_no_program_without_clean_signal_state")
        \cup V(~cfg.expect_start /\ ~cfg.has_fault => ~r.ok /\ r.errkind = "io", "C07_failure_reported")
        \cup V(~cfg.expect_start /\ ~cfg.has_fault /\ cfg.class \in {"path-only-empty-local", "path-slash", "path-empty", "path-unset"}
                 => ~r.ok /\ r.errkind = "io", "C15_error_when_nothing_startable")
